@@ -12,7 +12,7 @@ LANGS = ['en', 'de', 'de-DE', '*', '*-DE', 'de-*', 'de-*-DE', 'en-US', '""', 'fr
 
 class SGen:
     def __init__(self, rnd, names=None, classes=None, ids=None, attrs=None, values=None, texts=None, feats=('core',),
-                 prefixes=None):
+                 prefixes=None, langs=None):
         self.r = rnd
         self.names = names or ['div', 'p', 'span', 'a', 'li']
         self.classes = classes or ['x', 'y']
@@ -191,6 +191,13 @@ def pools_from_soup(top):
                     if len(x) > 1:
                         values.add(x[:len(x) // 2])
                         values.add(x[len(x) // 2:])
+    langs = set()
+    for el in it + list(top.find_all(True)):
+        for k, v in el.attrs.items():
+            if str(k).lower() in ('lang', 'xml:lang') and isinstance(v, str):
+                langs.add(v)
+            if el.name.lower() == 'meta' and str(k).lower() == 'content' and isinstance(v, str):
+                langs.add(v)
     for s in top.find_all(string=True):
         t = str(s)
         if t.strip():
@@ -198,7 +205,7 @@ def pools_from_soup(top):
             texts.add(t.strip()[-3:])
     f = lambda s, d: sorted(x for x in s if x) or d
     return dict(names=f(names, ['div']), classes=f(classes, ['x']), ids=f(ids, ['a']), attrs=f(attrs, ['title']),
-                values=sorted(values) or ['x'], texts=f(texts, ['x']))
+                values=sorted(values) or ['x'], texts=f(texts, ['x']), langs=sorted(langs))
 
 
 # ------------------------------------------------------------------ AST generator (for the reference oracle)
@@ -263,8 +270,10 @@ def show_list(sl):
 
 
 class AGen:
-    def __init__(self, rnd, names, classes, ids, attrs, values, texts=None, prefixes=None, feats=('core',), ascii_ci=True):
+    def __init__(self, rnd, names, classes, ids, attrs, values, texts=None, prefixes=None, feats=('core',), ascii_ci=True, langs=None, nsmap=None):
         self.r = rnd
+        self.langs = langs or []
+        self.nsmap = nsmap or {}
         self.names, self.classes, self.ids, self.attrs, self.values = names, classes, ids, attrs, values
         self.texts = texts or ['x']
         self.prefixes = prefixes or []
@@ -312,7 +321,14 @@ class AGen:
                       'de-x', 'en-*', 'EN', 'zh-*-CN', 'en-a', 'de-DE-*', '*-*', 'de-DE-1996', 'de-Latn-DE', 'en-a-bbb',
                       'fr-x-private', 'de-1996', '*-1996', 'en-bbb', 'de-x-mundart', 'de-mundart', 'es', 'zh-Hant', 'zh-CN',
                       '*-*-*', 'de-*-*', 'e', 'en-', '-en', 'en--US', 'fr-CH', 'en-GB', 'de-CH']
-            return ('lang', [r.choice(RANGES) for _ in range(r.choice([1, 1, 1, 2, 3]))])
+            def rng():
+                if self.langs and r.random() < 0.4:
+                    # a range derived from a language that occurs in the document (attribute or <meta> pragma)
+                    l = r.choice(self.langs)
+                    sub = l.split('-')
+                    return r.choice([l, sub[0], sub[0] + '-*', '*-' + sub[-1], l.upper(), '*', sub[0] + '-*-' + sub[-1], l + '-x'])
+                return r.choice(RANGES)
+            return ('lang', [rng() for _ in range(r.choice([1, 1, 1, 2, 3]))])
         if k == 'kw':
             return (r.choice(KEYWORDS),)
         if k == 'kw_empty':
@@ -400,6 +416,31 @@ class AGen:
                 break
         else:
             return self.selector(1)
+        if self.nsmap and r.random() < 0.45:
+            # an attribute that really is in a namespace the caller mapped: [pf|name], [pf|name=value]; or an element in one
+            rev = {}
+            for pf_, u_ in self.nsmap.items():
+                if pf_:
+                    rev.setdefault(u_, []).append(pf_)
+            cands = [(e, k, v) for e in els for k, v in e.attrs.items() if getattr(k, 'namespace', None) in rev and isinstance(v, str) and getattr(k, 'name', None)]
+            if cands and r.random() < 0.7:
+                e, k, v = r.choice(cands)
+                c = self._compound_for(e) if r.random() < 0.5 else {'ids': [], 'classes': [], 'attrs': [], 'pseudos': []}
+                c['attrs'] = [(r.choice(rev[k.namespace]), k.name, None, '', None) if r.random() < 0.5 else
+                              (r.choice(rev[k.namespace]), k.name, '=', v, None)]
+                return show_list([[c]]), [[c]]
+            ecands = [e for e in els if getattr(e, 'namespace', None) in rev and e.name.split(':')[-1] in self.names]
+            if ecands:
+                e = r.choice(ecands)
+                c = {'ids': [], 'classes': [], 'attrs': [], 'pseudos': [], 'type': (r.choice(rev[e.namespace]), e.name.split(':')[-1])}
+                return show_list([[c]]), [[c]]
+        if r.random() < 0.2:
+            # a childless (no element child) element asked about :empty
+            leaves = [e for e in els if not any(isinstance(c, bs4.Tag) for c in e.contents)]
+            if leaves:
+                c = self._compound_for(r.choice(leaves))
+                c['pseudos'] = [('empty',)] if r.random() < 0.6 else [('not', [[{'ids': [], 'classes': [], 'attrs': [], 'pseudos': [('empty',)]}]])]
+                return show_list([[c]]), [[c]]
         comb, x = r.choice(rels)
         cx, cy = self._compound_for(x), self._compound_for(y)
         form = r.choice(['plain', 'plain', 'not', 'is', 'has', 'nothas'])
